@@ -14,7 +14,7 @@ PID = "C20"
 LEVEL = "exploration"
 RULE = ("lists of JSON objects in hint position: random key/value trees and field-wise mutations of valid "
         "hints (type wrong/unknown/missing; hostname non-string; port string/float/negative/huge/missing; "
-        "priority string/None/list/dict/NaN-like/bool; relay-v1 with hints missing / not a list / containing "
+        "priority string/None/list/dict/NaN-like/bool/integers beyond float range; relay-v1 with hints missing / not a list / containing "
         "non-objects / nested relays / tor hints without Tor; many equal-host entries with incomparable "
         "priorities). Path 1: Transit{Sender,Receiver}.add_connection_hints + connect() on the simulator "
         "(with and without an honest peer listening). Path 2: a dilated pair held in CONNECTING; one "
@@ -43,9 +43,9 @@ def mutate(rng, h):
     elif m == "hostname":
         h["hostname"] = rng.choice(JUNK + HOSTS)
     elif m == "port":
-        h["port"] = rng.choice(JUNK + ["80", 80.0, -5, 0, 65536, 10 ** 12])
+        h["port"] = rng.choice(JUNK + ["80", 80.0, -5, 0, 65536, 10 ** 12, 10 ** 400])
     elif m == "priority":
-        h["priority"] = rng.choice(JUNK + ["high", float("1e308"), -0.0])
+        h["priority"] = rng.choice(JUNK + ["high", float("1e308"), -0.0, 10 ** 400, -(10 ** 400), 2 ** 1024, 2 ** 63])
     elif m == "drop":
         h.pop(rng.choice(sorted(h)), None)
     elif m == "extra":
